@@ -442,7 +442,7 @@ def run(ctx):
             ctx.sample({'layer': 'B', 'cols': [{k: v for k, v in c.items() if k != '_pattern'}
                                                 for c in tb['cols']],
                         'delim': tb['delim'], 'enc': tb['enc'], 'header': tb['header'],
-                        'first_row_text': [t[0] for t in tb['texts']]})
+                        'first_row_text': [(t[0] if t else None) for t in tb['texts']]})
     ctx.cov['rule'] = ('layer A: every separated format of up to %d documented tokens (all separators for <=2, '
                        'sampled beyond), all unseparated 2-3 token concatenations, random strings over the '
                        'format alphabet; non-trivial = longer than 2 chars. layer B: random typed tables '
